@@ -11,8 +11,11 @@ from contextlib import contextmanager
 from stone.frontend.ir_generator import doc_ref_re
 from stone.ir import (
     is_alias,
+    is_struct_type,
+    is_tag_ref,
     resolve_aliases,
-    strip_alias
+    strip_alias,
+    unwrap_aliases,
 )
 
 _MYPY = False
@@ -83,6 +86,12 @@ def remove_aliases_from_api(api):
         for data_type in namespace.data_types:
             for field in data_type.fields:
                 strip_alias(field)
+                # A tag default may have been written against an alias of
+                # the union.
+                if (is_struct_type(data_type) and field.has_default and
+                        is_tag_ref(field.default)):
+                    field.default.union_data_type, _ = unwrap_aliases(
+                        field.default.union_data_type)
         for route in namespace.routes:
             # Strip inner aliases
             strip_alias(route.arg_data_type)
